@@ -181,13 +181,10 @@ const smtPrelude = `(set-option :produce-models true)
 (set-logic ALL)
 (declare-sort Str 0)
 (declare-fun slen (Str) Int)
-(assert (forall ((s Str)) (! (and (<= 0 (slen s)) (<= (slen s) 9223372036854775807)) :pattern ((slen s)))))
 (declare-fun sat (Str Int) Int)
 (declare-fun sconcat (Str Str) Str)
 (declare-fun ssub (Str Int Int) Str)
 (declare-fun sless (Str Str) Bool)
-(assert (forall ((s Str) (n Int)) (! (=> (= n (slen s)) (= (ssub s 0 n) s)) :pattern ((ssub s 0 n)))))
-(assert (forall ((s Str) (lo Int) (hi Int)) (! (=> (and (<= 0 lo) (<= lo hi) (<= hi (slen s))) (= (slen (ssub s lo hi)) (- hi lo))) :pattern ((ssub s lo hi)))))
 (declare-datatypes ((Slice 0)) (((mk_slice (s_arr Int) (s_off Int) (s_len Int) (s_cap Int)))))
 (declare-datatypes ((Iface 0)) (((mk_iface (i_tag Int) (i_ref Int)))))
 (declare-const alloc@0 Int)
